@@ -604,11 +604,15 @@ func countCalls(dry *sysinject.Result) threadCounts {
 }
 
 // report folds outcomes into the recorder and returns the first violation.
-func report(rec *ev.Recorder, w *workload, desc string, outs []outcome) (viol *outcome, incon string) {
+func report(rec *ev.Recorder, w *workload, desc string, outs []outcome) (viol *outcome, incon string, nIncon int) {
 	for n := range outs {
 		o := &outs[n]
-		if o.incon != "" && incon == "" {
+		if o.incon != "" {
+			// environment trouble in a single run is not a verdict: the case counts as not evaluated
+			nIncon++
 			incon = o.incon
+			rec.Label("run-harness-error")
+			continue
 		}
 		if o.discard {
 			rec.Label("discarded-foreign-injection")
@@ -669,12 +673,12 @@ func finish(t *rapid.T, rec *ev.Recorder, w *workload, desc string, outs []outco
 	if skipped > 0 {
 		rec.LabelN("fault-cases-skipped-time-budget", int64(skipped))
 	}
-	viol, incon := report(rec, w, desc, outs)
+	viol, incon, nIncon := report(rec, w, desc, outs)
 	if viol != nil {
 		t.Fatalf("C13 violated: %s", viol.viol)
 	}
-	if incon != "" {
-		ev.Inconclusive("%s", incon)
+	if nIncon*4 > len(outs) {
+		ev.Inconclusive("%d of %d injected runs hit harness/environment errors, last: %s", nIncon, len(outs), incon)
 	}
 }
 
